@@ -66,7 +66,7 @@ def parseBytes (bs : List Nat) : Except PErr (UExpr Rat) :=
 
 /-- NAME tokens compared up to `inv_name_alternatives` (`%` is printed for the symbol `percent`) -/
 def canonTok : Tok → Tok
-  | .name s => .name (canonName s)
+  | .name s => .name (canonTree s).toList
   | t => t
 
 def opsC20 : Handler := fun st fields =>
